@@ -10,7 +10,7 @@ META = {
     "category": "proof",
     "design_ref": "§6 C16, §5.5",
     "technique": "Lean 4 invariant proof over all schedules and all instants + controlled-worker differential correspondence",
-    "text": "Lean theorem C16_full, for every sortable workflow graph, any number of nodes and jobs, every limit k, every schedule "
+    "text": "Lean theorem C16_full (C16_full_interleaved: also when bodies start and finish while a poll is scanning), for every sortable workflow graph, any number of nodes and jobs, every limit k, every schedule "
     "(including lost jobs) and every instant, also between two polls: any duplicate-free list of bodies that are executing has "
     "length <= k.  Mechanism (C16_pending_bound): a body executes only inside a pending future and the dispatcher creates a "
     "future only while len(task_futures) < max_concurrent (the D11 repair); C16_old_rule_violates shows by computation that the "
@@ -21,18 +21,18 @@ META = {
     "split / chain+independent jobs, one future completing while the other bodies execute, so that r <= k jobs remain queued with "
     "r + running > k), comparing per iteration tasks / dispatches / pending futures and the maximal "
     "number of simultaneously open bodies with the Lean model replaying the recorded schedule.",
-    "note": "Trusted: Lean kernel; hand-written model of the dispatch loop (Sched/Model.lean), poll atomic w.r.t. the environment; "
+    "note": "Trusted: Lean kernel; hand-written model of the dispatch loop (Sched/Model.lean, Sched/Interleaved.lean), one update_status call atomic w.r.t. the environment; "
     "'executing' = lock file held between the body's start and end log lines; the pool of the controlled worker has k+1 "
     "processes so that an overstepping dispatcher shows up as an extra open body; the verdict 'open bodies <= k' is taken from the "
     "bodies' own start/end log and is computed whatever else happened in the run; the observer subclass passes any signature through.",
     "rule": "case = (independent / chained / mixed jobs <= 10, k in 1..n, recorded schedule; plus the end-of-queue family); distinct by canonical JSON; "
     "non-trivial = >= 3 jobs and a schedule policy other than FIFO completion",
-    "assumptions": ["a poll (get_runnable_tasks) is atomic with respect to changes on disk"],
+    "assumptions": ["one NodeExecution.update_status call is atomic with respect to changes on disk (bodies may start, finish and fail before every node.done / p.done read of a poll: *_interleaved theorems); futures are reported complete between polls"],
     "trusted": ["model of Submitter.expand_workflow_async dispatch written by hand (Sched/Model.lean)"],
 }
 
 _NS = "PydraModel.Sched."
-OBLIGATIONS = [_NS + n for n in ("C16_full", "C16_pending_bound", "C16_k1", "C16_old_rule_violates", "C16_new_rule_respects")]
+OBLIGATIONS = [_NS + n for n in ("C16_full", "C16_full_interleaved", "C16_pending_bound", "C16_k1", "C16_old_rule_violates", "C16_new_rule_respects")]
 LEAN_TARGETS = ["PydraModel.Props.C16"]
 MODEL_TARGETS = ["PydraModel.Sched.Model", "PydraModel.DriverUtil"]
 
